@@ -180,6 +180,8 @@ def ev2(e, p, end, T):
         return (1, p, 0, 0, p)
     if n == 'failure':
         return (0, p, 0, 0, p)
+    if n == 'raise':
+        return (2, p, pegspec.default_rid(a[0]), p, p)
     if n == 'eof':
         return (1, p, 0, 0, p) if p == end else (0, p, 0, 0, p)
     if n == 'any':
@@ -257,6 +259,7 @@ HARNESS = r'''/* generated harness: real rule over symbolic sub-rules vs PEG ref
 #define SP_MAXRES %(maxres)d
 #define SP_BYTES %(bytes)d
 %(k2)s
+%(lazy)s
 #include "verif.h"
 #include "symtab.h"
 
@@ -281,7 +284,7 @@ static void harness(void) {
 '''
 
 
-def harness_text(case, N, K, doc, maxres=3, variants=('ar', 'ao', 'nr', 'no'), bytes_=False, k2=0):
+def harness_text(case, N, K, doc, maxres=3, variants=('ar', 'ao', 'nr', 'no'), bytes_=False, k2=0, lazy=False):
     g = pegspec.Gen()
     e = lower(parse(case['spec']), doc)
     fn = g.fn(e)
@@ -305,5 +308,5 @@ def harness_text(case, N, K, doc, maxres=3, variants=('ar', 'ao', 'nr', 'no'), b
         reach.append('  REACH(e.r == 2 && e.id >= 4000, "exception converted by raise_nested");')
     if 'foreign' in seen:
         reach.append('  REACH(e.r == 3, "foreign exception propagates");')
-    return HARNESS % {'N': N, 'K': K, 'maxres': maxres, 'bytes': 1 if bytes_ else 0, 'k2': ('#define SP_K2 %d' % k2) if k2 else '', 'spec': g.text(), 'specfn': fn, 'calls': '\n'.join(calls), 'reach': '\n'.join(reach),
+    return HARNESS % {'N': N, 'K': K, 'maxres': maxres, 'bytes': 1 if bytes_ else 0, 'k2': ('#define SP_K2 %d' % k2) if k2 else '', 'lazy': '#define SP_LAZY 1' if lazy else '', 'spec': g.text(), 'specfn': fn, 'calls': '\n'.join(calls), 'reach': '\n'.join(reach),
                       'alldefs': '\n'.join('#define V_%s 1' % v for v in variants)}, repr(e), sorted(seen)
